@@ -211,7 +211,7 @@ def slts_propagate_case(comp, new_iv, same_as_top):
                 bounds={"composition": comp, "new interval": new_iv, "top-level field before": "equal to the request" if same_as_top else "different"})
 
 
-def ssts_step_case(ivk, npts=2, i=1):
+def ssts_step_case(ivk, npts=2, i=1, repeated=False):
     """SetSpeedTrainSim::step: solve -> save -> increment; the saved entry is the solved state of this step"""
     t = C14.ssts_tmpl(i, npts)
     t["save_interval"] = iv_tmpl(ivk)
@@ -219,7 +219,7 @@ def ssts_step_case(ivk, npts=2, i=1):
     t["loco_con"]["state"]["i"] = i
     t["loco_con"]["loco_vec"][0]["save_interval"] = iv_tmpl(ivk)
     t["loco_con"]["loco_vec"][0]["state"]["i"] = i
-    base = C14.step_case(i, npts)
+    base = C14.step_case(i, npts, strict_time=not repeated)
 
     def assume(S):
         d = base.assume(S)
@@ -246,8 +246,9 @@ def ssts_step_case(ivk, npts=2, i=1):
         Claim("an error from solve leaves counters and histories untouched", lambda c: AND(XEQ(c.post["state.i"], i), XEQ(c.post["loco_con.state.i"], i), _eq_int(c, hlen(c, "history"), 0), _eq_int(c, hlen(c, "loco_con.history"), 0)), when="err", role="err_leaves_counters"),
         Claim("no_panic", None, when="nopanic"),
     ]
-    return Case(f"set_speed_sim_step_{ivk}_i{i}", "C19", "SetSpeedTrainSim", t, [Call("SetSpeedTrainSim::step", [])], assume, claims,
-                bounds={"trace points": npts, "step": i, "save interval": ivk, "consist": "one DummyLoco"}, max_paths=20000, timeout_ms=60000)
+    return Case(f"set_speed_sim_step_{ivk}_i{i}" + ("_repeated_time" if repeated else ""), "C19", "SetSpeedTrainSim", t, [Call("SetSpeedTrainSim::step", [])], assume, claims,
+                bounds={"trace points": npts, "step": i, "save interval": ivk, "consist": "one DummyLoco", "time stamps": "may repeat (dt = 0)" if repeated else "strictly increasing"},
+                max_paths=20000, timeout_ms=60000, check_side=not repeated)  # with dt = 0 the physics divides by zero: not this property's subject
 
 
 # ---------------------------------------------------------------- simulation drivers: walk() of the locomotive / consist simulations, step() of the speed-limited train
@@ -377,6 +378,7 @@ def slts_step_case(iv):
 
 
 def m_cases(tier):
+    tier = "thorough"  # the full case list is cheap enough to run on every change (the tiers differ only in validation vectors)
     cs = []
     cs += [sim_walk_case("loco", "C", 1), sim_walk_case("loco", "B", 2), sim_walk_case("loco", "H", None), sim_walk_case("consist", "CB", 1), sim_walk_case("consist", "HB", 2)]
     cs += [slts_step_case(None), slts_step_case(1), slts_step_case(3)]
@@ -387,6 +389,7 @@ def m_cases(tier):
             cs.append(comp_case(kc, ivk))
         cs += [loco_case("conv", ivk), loco_case("bel", ivk), loco_case("hyb", ivk), consist_case("CB", ivk), consist_case("HC", ivk)]
         cs.append(ssts_step_case(ivk))
+        cs.append(ssts_step_case(ivk, repeated=True))
     cs += [propagate_case("CB", "Some"), propagate_case("CB", "None")]
     cs += [slts_propagate_case("CB", "Some", True), slts_propagate_case("CB", "Some", False), slts_propagate_case("CB", "None", True), slts_propagate_case("CB", "None", False)]
     if tier == "thorough":
